@@ -65,6 +65,16 @@ template <typename CT> static bool civilT(const std::string& op, const Toks& t) 
       if (v[6] == 1) { CT a3 = c, a4 = c; if (op == "add") { ++a3; CT o = a4++; same = same && (o == c); } else { --a3; CT o = a4--; same = same && (o == c); } same = same && (a3 == r) && (a4 == r); }
       if (!same) out += " OPERATOR-FORMS-DISAGREE " + fieldsStr(a1);
     }
+  } else if (op == "chain") {
+    // chained steps: (c + n) + m, (c + n) - n, (c + n) - (c + m)
+    if (!ints(t, 2, 8, v)) return false;
+    CT c(v[0], v[1], v[2], v[3], v[4], v[5]);
+    CT x = c + v[6];
+    CT r1 = x + v[7];
+    CT r2 = x - v[6];
+    CT y = c + v[7];
+    cctz::diff_t d = x - y;
+    out = fieldsStr(r1) + " | " + fieldsStr(r2) + " | " + std::to_string((int64_t)d);
   } else if (op == "diff") {
     if (!ints(t, 2, 12, v)) return false;
     CT a(v[0], v[1], v[2], v[3], v[4], v[5]);
@@ -119,7 +129,7 @@ static int wdIdx(cctz::weekday w) {
 static bool civilOp(const Toks& t) {
   const std::string& op = t[0];
   int64_t v[13];
-  if (op == "new" || op == "add" || op == "sub" || op == "diff") {
+  if (op == "new" || op == "add" || op == "sub" || op == "diff" || op == "chain") {
     if (t.size() < 2) return false;
     const std::string& tg = t[1];
     if (tg == "second") return civilT<cctz::civil_second>(op, t);
